@@ -1,4 +1,5 @@
 import Cherab.Props.C01Table
+import Cherab.Props.C01Notifier
 open Cherab.Props.C01
 #print axioms Inval.inv_run
 #print axioms Inval.no_stale
@@ -12,3 +13,4 @@ open Cherab.Props.C01
 #print axioms no_broken_subscriptions
 #print axioms no_uncleared_sentinels
 #print axioms no_stale_cherab
+#print axioms notifier_exact
